@@ -312,16 +312,16 @@ def initialAccepted (s : FSA V L) (w : List L) : Except Err (List L) :=
   | [] => .error .indexError
   | v :: _ => .ok (s.acceptedPrefixFrom v w)
 
-/-- the loop of `initial_rejected_subword` from a given vertex -/
-def rejectedPrefixFrom (s : FSA V L) : V → List L → List L
-  | _, [] => []
+/-- the loop of `initial_rejected_subword` from a given vertex: `none` is Python's `None` -/
+def rejectedPrefixFrom (s : FSA V L) : V → List L → Option (List L)
+  | _, [] => none
   | v, l :: w => match s.step v l with
-    | some v' => l :: s.rejectedPrefixFrom v' w
-    | none => [l]
+    | some v' => (s.rejectedPrefixFrom v' w).map (l :: ·)
+    | none => some [l]
 
-/-- `initial_rejected_subword(word)` (fsa.py:429): as coded it returns the whole word (not
-`None`) when the word is accepted -/
-def initialRejected (s : FSA V L) (w : List L) : Except Err (List L) :=
+/-- `initial_rejected_subword(word)` (fsa.py:429, repaired): the shortest rejected prefix, `None`
+when the word is accepted -/
+def initialRejected (s : FSA V L) (w : List L) : Except Err (Option (List L)) :=
   match s.starts with
   | [] => .error .indexError
   | v :: _ => .ok (s.rejectedPrefixFrom v w)
@@ -428,12 +428,12 @@ def rlpLoop (s : FSA V L) (ties : Bool) :
     rlpLoop s ties fuel H marked dist (q ++ toVisit)
 
 /-- `remove_long_paths(root, edge_ties)` (fsa.py:349) together with the `distance` dictionary.
-`H = FSA({})` has an empty start list.  Every vertex enters the queue at most once, so
+`H = FSA({}, start_vertices=[root])` (repaired).  Every vertex enters the queue at most once, so
 `#vertices + 1` iterations suffice. -/
 def removeLongPaths (s : FSA V L) (root : Option V) (ties : Bool) :
     Except Err (FSA V L × Dict V Nat) := do
-  let H := (empty ([] : List V) : FSA V L).addVertices s.vertices
   let root ← match root with | some r => pure r | none => s.start0
+  let H := (empty [root] : FSA V L).addVertices s.vertices
   let marked := Dict.set (s.vertices.map fun v => (v, false)) root true
   rlpLoop s ties (s.out.length + 2) H marked [(root, 0)] [root]
 
